@@ -621,6 +621,9 @@ class StateMachine:
         if state is None and self.__default_state is not None:
             state = self.__default_state
             if self.__state != state:
+                if self.__engaged:
+                    # execution of regular states ceased
+                    self.done()
                 state.ran = False
                 self.__state = state
 
